@@ -15,8 +15,9 @@ def constants_for(impl, cfg, nslots, deviations=()):
         'AsyncHandlers': 'TRUE' if cfg['async_handlers'] else 'FALSE',
         'Monitor': 'TRUE' if cfg['monitor'] else 'FALSE',
         'WsAvailable': 'TRUE' if cfg['ws_available'] else 'FALSE',
-        'ImplSentinel': 'TRUE' if impl == 'sync' else 'FALSE',
+        'ImplSentinel': 'TRUE',   # both servers put the sentinel in close() (asyncio since the fix)
         'ImplWsReadTimeout': 'TRUE' if impl == 'async' else 'FALSE',
+        'ImplJoinLatch': 'TRUE' if impl == 'async' else 'FALSE',
         'Deviations': '{' + ', '.join('"%s"' % d for d in sorted(deviations)) + '}',
         'Horizon': 100000000,
         'Transports': '{' + ', '.join('"%s"' % t for t in (cfg.get('transports') or
